@@ -104,7 +104,9 @@ if __name__ == "__main__":
              "(2..17, 65518..65520, 65534..65536, 70000), random splits into <=4 writes with mixed buffer patterns, short-read patterns on the raw connection, both directions; "
              "tampering: for every frame of multi-frame payloads, byte flips (first/last/middle ciphertext byte, length prefix), truncation by 1/16/17 bytes, drop, duplicate, swap. "
              "Each Read's (result, n, content-matches-written-stream) is compared with the Coq model of rw.go and judged by the byte-fidelity monitor. "
-             "Other stacks (monitor only): TLS sessions, PSK (pnet) connections over TCP with short reads, tcpreuse sampled connections read through Read, io.Copy and both, "
+             "Other stacks (monitor only): TLS sessions, PSK (pnet) connections over TCP with short reads and over a scripted in-memory connection (last bytes returned together with io.EOF, "
+             "first Write timing out before the nonce is sent and retried), tcpreuse sampled connections read through Read, io.Copy, both, and io.Copy interrupted by a read deadline "
+             "after a 1-2 byte Read, yamux streams whose reader's deadline expired while more than half a window was buffered (bytes returned together with a timeout count), "
              "1-5 concurrent yamux streams per connection in both directions with half-close followed by further reads/writes, and host-to-host streams (TCP + Noise or TLS + yamux). "
              "Non-trivial = more than one Noise frame, tampered, or a non-Noise stack.",
         describe=describe, key=key, what=what, crosscheck=15,
